@@ -543,6 +543,16 @@ def finish_expand(spec, w, infos, taplog, stats):
             p[2] = Rng(repl[(cid, lab)], "wrongsecret").bytes(n).hex()
             ln = " ".join(p)
         outlines.append((t, cid, ln))
+    if kc.get("early_lines"):
+        # a TLS 1.3 client that offered early data to a TLS <= 1.2 server leaves a CLIENT_EARLY_TRAFFIC_SECRET line with
+        # the same client random next to the CLIENT_RANDOM line
+        ol2 = []
+        for (t, cid, ln) in outlines:
+            ol2.append((t, cid, ln))
+            pp = ln.split(" ")
+            if pp[0] == "CLIENT_RANDOM":
+                ol2.append((t, cid, "CLIENT_EARLY_TRAFFIC_SECRET %s %s" % (pp[1], Rng(kc["early_lines"], "early", pp[1]).bytes(32).hex())))
+        outlines = ol2
     keylog_text, items = apply_keychan(kc, outlines, items, frames_meta, taplog)
     cont = dict(spec.get("container", {}))
     if cont.get("tsresol") is not None:
